@@ -565,3 +565,99 @@ Proof.
   intros e1 e2 W. induction ops as [|o t IH]; intros sp H; [exact I|].
   destruct H as [G [X H]]. split; [exact G|]. split; [now apply W|now apply IH].
 Qed.
+
+(* ---- the poll back-end of the CURRENT tree (F-1 fixed): no hypothesis beyond the preconditions and sclean ----
+   The generated fact says PollPoller::removeChannel ends with channel->set_index(-1); reverting that
+   line flips the fact and breaks this lemma (and everything below it). *)
+Lemma resets_index_current : PollPoller_remove_resets_index = true.
+Proof. reflexivity. Qed.
+
+Lemma pp_step_current_eq : forall st o, pp_step_current st o = pp_step true st o.
+Proof. intros. unfold pp_step_current. now rewrite resets_index_current. Qed.
+
+Inductive reachPC : pp -> spec -> Prop :=
+| reachPC_init : reachPC pp_init spec0
+| reachPC_step : forall st sp o st' act, reachPC st sp -> sguard sp o -> sclean sp o ->
+    pp_step_current st o = Ok (st', act) -> reachPC st' (spec_step sp o).
+
+Lemma reachPC_reachP : forall st sp, reachPC st sp -> reachP true st sp.
+Proof.
+  induction 1 as [|st sp o st' act R IH G CL E]; [constructor|].
+  rewrite pp_step_current_eq in E. econstructor; eauto. now apply pextra_true.
+Qed.
+Lemma reachP_reachPC : forall st sp, reachP true st sp -> reachPC st sp.
+Proof.
+  induction 1 as [|st sp o st' act R IH G [CL _] E]; [constructor|].
+  econstructor; eauto; now rewrite pp_step_current_eq.
+Qed.
+
+Lemma reachPC_inv : forall st sp, reachPC st sp -> InvP true st sp.
+Proof. intros st sp R. apply reachP_inv. now apply reachPC_reachP. Qed.
+
+(* for ALL histories meeting the preconditions and sclean -- remove() and re-registration of the same
+   Channel object included -- every op succeeds and Poll reports exactly the interest map's set *)
+Lemma reachPC_refines : forall st sp, reachPC st sp ->
+  forall o,
+    (sguard sp o -> sclean sp o ->
+       exists st' act, pp_step_current st o = Ok (st', act) /\ reachPC st' (spec_step sp o) /\
+         match o with
+         | Poll ready _ => st' = st /\ forall c r, In (c, r) act <-> spec_reports sp ready c r
+         | _ => act = []
+         end) /\
+    (~ sguard sp o -> pp_step_current st o = Rejected).
+Proof.
+  intros st sp R o. pose proof (reachPC_reachP _ _ R) as RP.
+  destruct (reachP_refines true st sp RP o) as [A B]. split.
+  - intros G CL. destruct (A G (pextra_true _ _ CL)) as [st' [act [E [R' M]]]].
+    exists st', act. rewrite pp_step_current_eq. split; [exact E|]. split; [now apply reachP_reachPC|exact M].
+  - intros NG. rewrite pp_step_current_eq. now apply B.
+Qed.
+
+Lemma reachPC_no_fault : forall st sp o, reachPC st sp -> sclean sp o -> pp_step_current st o <> Fault.
+Proof.
+  intros st sp o R CL F. destruct (reachPC_refines st sp R o) as [A B].
+  assert (NG : ~ sguard sp o). { intros G. destruct (A G CL) as [st' [act [E _]]]. congruence. }
+  rewrite (B NG) in F. discriminate.
+Qed.
+
+Lemma run_reachPC : forall ops st sp, reachPC st sp -> hist_ok sclean sp ops ->
+  exists st' outs, pp_run_current st ops = Ok (st', outs) /\ reachPC st' (spec_run sp ops).
+Proof.
+  induction ops as [|o t IH]; intros st sp R H.
+  - exists st, []. split; [reflexivity|exact R].
+  - destruct H as [G [CL H]].
+    destruct (reachPC_refines st sp R o) as [A _]. destruct (A G CL) as [st1 [act [E [R1 _]]]].
+    destruct (IH st1 (spec_step sp o) R1 H) as [st' [outs [E' R']]].
+    unfold pp_run_current in *. cbn [pp_run]. unfold pp_step_current in E. rewrite E. cbn [bind fst snd].
+    rewrite E'. cbn [bind fst snd]. eexists _, _. split; [reflexivity|exact R'].
+Qed.
+
+(* both back-ends of the current tree on the same (sclean) history *)
+Lemma backends_agree_current : forall stE stP sp ready choiceE choiceP,
+  reachE stE sp -> reachPC stP sp ->
+  exists actP stE' actE,
+    pp_step_current stP (Poll ready choiceP) = Ok (stP, actP) /\
+    ep_step stE (Poll ready choiceE) = Ok (stE', actE) /\
+    (forall c r, In (c, r) actP <-> spec_reports sp ready c r) /\
+    (forall c r, In (c, r) actP <-> In (c, r) (ep_full stE ready)) /\
+    (forall c r, In (c, r) actE -> In (c, r) actP) /\
+    (length (ep_full stE ready) <= e_cap stE -> forall c r, In (c, r) actP -> In (c, r) actE).
+Proof.
+  intros stE stP sp ready choiceE choiceP RE RP.
+  destruct (reachPC_refines stP sp RP (Poll ready choiceP)) as [A _].
+  destruct (A Logic.I Logic.I) as [stP' [actP [E [_ [-> IFF]]]]].
+  pose proof E as E0. rewrite pp_step_current_eq in E0.
+  destruct (backends_agree true stE stP sp ready choiceE choiceP stP actP RE (reachPC_reachP _ _ RP) E0)
+    as [B [stE' [actE [E2 [C D]]]]].
+  exists actP, stE', actE. repeat split; auto; try apply IFF; try apply B.
+Qed.
+
+(* every history meeting the preconditions and sclean runs on both back-ends of the current tree *)
+Lemma histories_run : forall ops, hist_ok sclean spec0 ops ->
+  (exists stE outsE, ep_run ep_init ops = Ok (stE, outsE) /\ reachE stE (spec_run spec0 ops)) /\
+  (exists stP outsP, pp_run_current pp_init ops = Ok (stP, outsP) /\ reachPC stP (spec_run spec0 ops)).
+Proof.
+  intros ops H. split.
+  - apply run_reachE; [constructor|exact H].
+  - apply run_reachPC; [constructor|exact H].
+Qed.
